@@ -632,6 +632,7 @@ func (g unionBuilderGenerator) emitKeyAssembler(w io.Writer) {
 				panic("misuse: KeyAssembler held beyond its valid lifetime")
 			}
 			if ka.ca != 0 {
+				ka.state = maState_initial // the refused key ends this key assembly; AssembleKey starts the next
 				return schema.ErrNotUnionStructure{TypeName:"{{ .PkgName }}.{{ .Type.Name }}", Detail: "cannot add another entry -- a union can only contain one thing!"}
 			}
 			switch k {
@@ -645,6 +646,7 @@ func (g unionBuilderGenerator) emitKeyAssembler(w io.Writer) {
 				return nil
 			{{- end}}
 			}
+			ka.state = maState_initial // the refused key ends this key assembly; AssembleKey starts the next
 			return schema.ErrInvalidKey{TypeName:"{{ .PkgName }}.{{ .Type.Name }}", Key:&_String{k}} // TODO: error quality: ErrInvalidUnionDiscriminant ?
 		}
 	`, w, g.AdjCfg, g)
